@@ -3,6 +3,7 @@
 use crate::driver::{minimise, run_generated, run_ops, ReplayDoc};
 use crate::gen::Swarm;
 use crate::scen_hist::Hist;
+use crate::scen_mask::Mask;
 use crate::scen_twin::Twin;
 use simcore::runner::{RunReport, Violation};
 
@@ -22,6 +23,8 @@ pub struct PropSpec {
 const RULE_HIST: &str = "each run = one seeded swarm configuration + one seeded operation history (DDL, multi-row DML with faults placed at seeded row positions, transactions) executed step by step on the real engine; an evaluation is one oracle comparison after a step; a run is non-trivial if it contains >=1 successful state change and >=1 non-vacuous oracle evaluation; distinct = distinct hash of the sequence of (operation kind, outcome class, reach probes hit)";
 
 const RULE_TWIN: &str = "each run = one seeded swarm configuration + one seeded history applied to twin Database instances that differ in exactly one respect; after every state-changing step the base tables are compared and 2-5 generated read-only probes are executed on all twins (multiset equality; sequence equality when ORDER BY covers the select list); an evaluation is one such comparison; non-trivial = >=1 successful state change and >=1 comparison; distinct = distinct hash of the sequence of (operation kind, outcome class, reach probes)";
+
+const RULE_MASK: &str = "each run = one seeded swarm configuration + one seeded DML history on one database; after every state-changing step 2-5 generated probe families are executed on the unchanged state under every execution configuration of the property (guarded switch masks / parallel thresholds x schedules) and in every equivalent rendering; an evaluation is one pairwise comparison of two executions; non-trivial = >=1 successful state change and >=1 comparison; distinct = distinct hash of the sequence of (operation kind, outcome class, reach probes)";
 
 pub fn spec(id: &str) -> Option<PropSpec> {
     let s = |id, label, rq, rt, level, assumptions: &'static [&'static str], qn| PropSpec {
@@ -48,7 +51,22 @@ pub fn spec(id: &str) -> Option<PropSpec> {
         stubs: &[],
         quarantine_note: "",
     };
+    let m = |id, label, rq, rt, assumptions: &'static [&'static str], stubs: &'static [&'static str]| PropSpec {
+        id,
+        scenario: "mask",
+        label,
+        runs_quick: rq,
+        runs_thorough: rt,
+        level: "exploration",
+        rule: RULE_MASK,
+        assumptions,
+        stubs,
+        quarantine_note: "",
+    };
     Some(match id {
+        "C03" => m("C03", 3, 20000, 300000, &["the gate is switched with the guarded hook H4 (vibesql_types::verif::skip(COLUMNAR)); the hook's hit counter shows how often the gated path was really taken", "probes are single-table COUNT/SUM/AVG/MIN/MAX (also SUM(a*b), SUM(a+k)) with WHERE restricted to what the gate admits, optional HAVING/LIMIT/OFFSET", "results compared bit-exactly including the value variant"], &[]),
+        "C05" => m("C05", 5, 15000, 250000, &["'definitional nested evaluation' = all guarded switches H5 set: no join reordering, no hash join (nested loop only), no IN/EXISTS rewrite, no semi-join transform, no index-backed IN fast path, no index scan", "the cross-rendering half (IN/EXISTS/NOT IN/NOT EXISTS, comma-join permutations, INNER JOIN vs cross product + WHERE, derived-table wrapping) is metamorphic generation riding on the same runs", "NOT IN renderings are compared only with the subquery column restricted to non-NULL values and the outer column non-NULL, where the semantics coincide"], &[]),
+        "C04" => m("C04", 4, 6000, 100000, &["rayon is replaced by a deterministic single-thread stand-in with rayon's documented semantics (order-preserving collect, stable par_sort_by); per combinator call the stand-in draws the execution order / split tree from a seeded schedule stream", "thresholds are switched per thread through hook H3 (never / always / 7)", "no claim about data races between real threads: the parallel closures contain no unsafe code and capture only shared references"], &["rayon (deterministic stand-in /verif/sim/simrayon)"]),
         "C02" => t("C02", 2, 20000, 400000, &["twin 0 receives every CREATE/DROP INDEX of the history, twin 1 none; a statement rejected by twin 0 (e.g. by a UNIQUE index) is not applied to twin 1, so both stay in the same state", "probes cover a generated SQL subset (single table with all comparison operators/BETWEEN/IN/AND/OR, ORDER BY/LIMIT, DISTINCT, aggregates, GROUP BY, 2-table joins, IN/EXISTS/NOT IN/NOT EXISTS/scalar subqueries, set operations, derived tables)"]),
         "C18" => t("C18", 18, 12000, 200000, &["the restarted twin is saved to a real file under /dev/shm, dropped, and re-created with load_*; the twin that never restarts is the reference", "column types limited to INTEGER and VARCHAR in this scenario (the full persisted type set is exercised by the 'types' sub-scenario)"]),
         "C19" => t("C19", 19, 12000, 200000, &["oracle restricted to what the statement promises: tables, columns (name, type) and exactly the same rows", "after a reload the history continues on both twins; a reloaded twin that accepts/rejects differently (constraints are not promised) ends the run without alarm"]),
@@ -123,6 +141,31 @@ fn tweak_for(prop: &str) -> impl Fn(&mut Swarm) {
             sw.with_tx = false;
             sw.steps = sw.steps.max(16);
         }
+        "C03" => {
+            if sw.guard("c03_no_ints_beyond_2_53") {
+                sw.extreme_ints = false;
+            }
+            sw.with_indexes = false;
+            sw.with_tx = false;
+            sw.fault_pct = sw.fault_pct.min(10);
+            sw.steps = sw.steps.max(16);
+        }
+        "C04" if sw.max_rows_stmt == 6 && sw.domain >= 16 => {
+            // one run in ~12: a table large enough for multi-chunk parallel hash builds
+            sw.with_tx = false;
+            sw.extreme_ints = false;
+            sw.fault_pct = 0;
+            sw.n_tables = 2;
+            sw.big_rows = if sw.null_pct >= 30 { 2100 } else { 1100 };
+            sw.steps = 14;
+        }
+        "C05" | "C04" => {
+            sw.with_tx = false;
+            sw.extreme_ints = false;
+            sw.fault_pct = sw.fault_pct.min(10);
+            sw.n_tables = sw.n_tables.max(2);
+            sw.steps = sw.steps.max(20);
+        }
         "C18" | "C19" => {
             sw.with_tx = false;
             sw.steps = sw.steps.max(16);
@@ -134,6 +177,7 @@ fn tweak_for(prop: &str) -> impl Fn(&mut Swarm) {
 pub fn run(prop: &str, run_seed: u64, guards: &[String]) -> RunReport {
     match prop {
         "C09" | "C10" | "C11" | "C12" | "C13" | "C14" | "C15" | "C24" => run_generated::<Hist>(prop, run_seed, guards, tweak_for(prop)),
+        "C03" | "C04" | "C05" => run_generated::<Mask>(prop, run_seed, guards, tweak_for(prop)),
         "C02" | "C18" | "C19" => run_generated::<Twin>(prop, run_seed, guards, tweak_for(prop)),
         _ => panic!("unknown property {}", prop),
     }
@@ -143,6 +187,7 @@ pub fn replay(doc: &ReplayDoc) -> (Option<Violation>, u64) {
     match doc.scenario.as_str() {
         "hist" => run_ops::<Hist>(&doc.property, &doc.swarm, &doc.ops),
         "twin" => run_ops::<Twin>(&doc.property, &doc.swarm, &doc.ops),
+        "mask" => run_ops::<Mask>(&doc.property, &doc.swarm, &doc.ops),
         other => panic!("unknown scenario {}", other),
     }
 }
@@ -151,6 +196,7 @@ pub fn minimise_doc(doc: &ReplayDoc) -> ReplayDoc {
     match doc.scenario.as_str() {
         "hist" => minimise::<Hist>(doc),
         "twin" => minimise::<Twin>(doc),
+        "mask" => minimise::<Mask>(doc),
         _ => doc.clone(),
     }
 }
